@@ -420,3 +420,39 @@ func TestRegressC17(t *testing.T) {
 	St.Eval(1)
 	St.NT(Hash("regress", "C17"))
 }
+
+func TestRegressC04(t *testing.T) {
+	// former known finding KF3 (repaired in 1f8d386): a directory cannot be moved into itself or below itself
+	r := newRg(t, "C04", "MKDIR /a, /a/b, /a/b/c; RENAME /a -> /a/b/x, /a -> /a/x, /a/b -> /a/b/c/y are refused; RENAME /a/b/c -> /c is not", 1540+300)
+	a := r.mkdir(r.root, "a")
+	b := r.mkdir(a, "b")
+	c := r.mkdir(b, "c")
+	mv := func(fd nt.Nfs_fh3, fn string, td nt.Nfs_fh3, tn string) nt.Nfsstat3 {
+		return r.s.API().NFSPROC3_RENAME(nt.RENAME3args{From: nt.Diropargs3{Dir: fd, Name: nt.Filename3(fn)}, To: nt.Diropargs3{Dir: td, Name: nt.Filename3(tn)}}).Status
+	}
+	for _, tc := range []struct {
+		what   string
+		fd     nt.Nfs_fh3
+		fn     string
+		td     nt.Nfs_fh3
+		tn     string
+		wantOK bool
+	}{
+		{"RENAME /a -> /a/b/x", r.root, "a", b, "x", false},
+		{"RENAME /a -> /a/x", r.root, "a", a, "x", false},
+		{"RENAME /a/b -> /a/b/c/y", a, "b", c, "y", false},
+		{"RENAME /a/b/c -> /c", b, "c", r.root, "c", true},
+		{"RENAME /a -> /c/a", r.root, "a", c, "a", true},
+		{"RENAME /c -> /c/a/b/z", r.root, "c", b, "z", false},
+	} {
+		st := mv(tc.fd, tc.fn, tc.td, tc.tn)
+		if (st == nt.NFS3_OK) != tc.wantOK {
+			r.fail("%s answered status %d", tc.what, st)
+		}
+		r.s.Quiesce()
+		if rep := Fsck(r.s.N.VerifFsState(), FsckOpts{Exact: true, Allocators: true}); len(rep.Problems) > 0 {
+			r.fail("after %s (status %d): fsck: %v", tc.what, st, rep.Problems)
+		}
+	}
+	r.done()
+}
